@@ -20,5 +20,5 @@ func TestC04(t *testing.T) {
 		"uploads parked at their source (in-flight writers) and composite reads parked in their slicer (open readers) are held across rotations; " +
 		"the model tracks pins/zombies/free and must predict every UNAVAILABLE; oracle: every block reader opened is closed exactly once at quiescence; " +
 		"non-trivial = at least one block rotation; distinct by script hash")
-	stx.Main(run, model, "C04", []string{"C04"}, []string{"flat", "flati", "hier", "hier", "ac"}, 800, 16000)
+	stx.Main(run, model, "C04", []string{"C04"}, []string{"flat", "flati", "hier", "hier", "ac"}, 2500, 16000)
 }
